@@ -8,11 +8,13 @@ EXPLANATION = (
     "The derive macros are program transformers; the quantifier is over programs. What is decided is the generated code for an enumerated family "
     "of shapes produced by shapes/gen.py from the grammar the property names (named / tuple / nested / generic structs; enums with unit, tuple and "
     "named variants; skipped fields and forwarded attributes - including several forwarded attributes on one field; and, throughout, SAME-TYPED "
-    "sibling fields, the only place a field mix-up type-checks): 40 shapes in quick, 280 in thorough. The family is compiled (type-checked only) "
+    "sibling fields, the only place a field mix-up type-checks; wide shapes with 11-12 same-typed fields, where positional names sort differently as "
+    "strings than as numbers; field and variant names declared in non-alphabetical order; fields of array / tuple type): about 60 shapes in quick, 290 in thorough. The family is compiled (type-checked only) "
     "against the current specs + specs-derive with the fact driver; a member that stops compiling is reported with the compiler's message. R1: for "
     "every generated convert_into / convert_from, field (or variant field) i of the output aggregate originates in exactly one conversion call whose "
     "callee's Self is the declared type of field i and whose argument is field i of the input; skipped fields originate in clone / move of field i; "
-    "enum arms build variant k from variant k. R2 (storage selection): the family contains type-equality obligations "
+    "enum arms build variant k from variant k; a field of array / tuple type that is converted element by element instead of by one whole-field call is "
+    "reported as undetermined (element placement is index arithmetic inside generated closures). R2 (storage selection): the family contains type-equality obligations "
     "`<S as Component>::Storage == requested` for no attribute (DenseVecStorage<S>), a bare storage name, an explicit <Self> argument, a storage with "
     "two type arguments, and a generic component; they are checked by rustc while compiling the family."
 )
